@@ -151,11 +151,11 @@ fn edf() -> impl Strategy<Value = Option<Edf>> {
     prop_oneof![
         1 => Just(None),
         8 => (
-            prop::option::of(any::<u16>()),
-            prop::option::of(any::<u64>()),
-            prop::option::of((any::<u16>(), s0(40))),
+            prop::option::of(crate::util::num::<u16>()),
+            prop::option::of(crate::util::num::<u64>()),
+            prop::option::of((crate::util::num::<u16>(), s0(40))),
             prop::option::of(s0(80)),
-            prop::option::of(prop_oneof![any::<u64>(), (0u64..0x0100_0000)]),
+            prop::option::of(prop_oneof![crate::util::num::<u64>(), (0u64..0x0100_0000)]),
         )
             .prop_map(|(port, steam_id, tv, keywords, game_id)| Some(Edf { port, steam_id, tv, keywords, game_id })),
     ]
@@ -172,8 +172,8 @@ fn case_of(c: u8, upper: bool) -> u8 {
 pub fn info(engine: EngineSel) -> impl Strategy<Value = Info> {
     let obsolete = engine.obsolete_info();
     (
-        (any::<u8>(), "[0-9]{1,3}\\.[0-9]{1,3}\\.[0-9]{1,3}\\.[0-9]{1,3}:[0-9]{1,5}", s0(120), s0(60), s0(40), s0(80)),
-        (any::<u16>(), any::<u8>(), any::<u8>(), any::<u8>()),
+        (crate::util::num::<u8>(), "[0-9]{1,3}\\.[0-9]{1,3}\\.[0-9]{1,3}\\.[0-9]{1,3}:[0-9]{1,5}", s0(120), s0(60), s0(40), s0(80)),
+        (crate::util::num::<u16>(), crate::util::num::<u8>(), crate::util::num::<u8>(), crate::util::num::<u8>()),
         (
             prop::sample::select(vec![b'd', b'l', b'p']),
             prop::sample::select(vec![b'l', b'w', b'm', b'o']),
@@ -182,10 +182,10 @@ pub fn info(engine: EngineSel) -> impl Strategy<Value = Info> {
             0u8 ..= 1,
             0u8 ..= 1,
         ),
-        (any::<u8>(), any::<u8>(), any::<u8>()),
+        (crate::util::num::<u8>(), crate::util::num::<u8>(), crate::util::num::<u8>()),
         s0(30),
         edf(),
-        prop::option::of((s0(60), s0(60), any::<u32>(), any::<u32>(), 0u8 ..= 1, 0u8 ..= 1)),
+        prop::option::of((s0(60), s0(60), crate::util::num::<u32>(), crate::util::num::<u32>(), 0u8 ..= 1, 0u8 ..= 1)),
     )
         .prop_map(
             move |((protocol, address, name, map, folder, game), (appid, players, max, bots), (st, env, up1, up2, vis, vac), ship, version, edf, modb)| {
@@ -233,12 +233,12 @@ fn f32_bits() -> impl Strategy<Value = u32> {
         3 => (0f32..100000f32).prop_map(|f| f.to_bits()),
         1 => Just((-1f32).to_bits()),
         1 => Just(0f32.to_bits()),
-        2 => any::<u32>().prop_map(|b| if f32::from_bits(b).is_nan() { b & 0x7F00_0000 } else { b }),
+        2 => crate::util::num::<u32>().prop_map(|b| if f32::from_bits(b).is_nan() { b & 0x7F00_0000 } else { b }),
     ]
 }
 
 pub fn player() -> impl Strategy<Value = Player> {
-    (any::<u8>(), s0(40), prop_oneof![any::<i32>(), -10i32..500], f32_bits(), any::<u32>(), any::<u32>()).prop_map(
+    (crate::util::num::<u8>(), s0(40), prop_oneof![crate::util::num::<i32>(), -10i32..500], f32_bits(), crate::util::num::<u32>(), crate::util::num::<u32>()).prop_map(
         |(index, name, score, duration_bits, deaths, money)| {
             Player {
                 index,
@@ -270,7 +270,7 @@ pub fn rules_vec() -> impl Strategy<Value = Vec<(String, String)>> {
 }
 
 fn challenge() -> impl Strategy<Value = [u8; 4]> {
-    let b = prop_oneof![3 => any::<u8>(), 2 => prop::sample::select(vec![0x00u8, 0x0A, 0x41, 0xFE, 0xFF])];
+    let b = prop_oneof![3 => crate::util::num::<u8>(), 2 => prop::sample::select(vec![0x00u8, 0x0A, 0x41, 0xFE, 0xFF])];
     [b.clone(), b.clone(), b.clone(), b]
 }
 
@@ -283,7 +283,7 @@ pub fn section(allow_compressed: bool) -> impl Strategy<Value = Section> {
             1 => prop::collection::vec(0u16..1000, 1..15).prop_map(|mut c| { c.sort(); Framing::Split { cuts: c, compressed: false } }),
             1 => prop::collection::vec(0u16..1000, 0..5).prop_map(move |mut c| { c.sort(); Framing::Split { cuts: c, compressed: allow_compressed } }),
         ],
-        any::<u32>(),
+        crate::util::num::<u32>(),
     )
         .prop_map(|(challenges, framing, split_id)| {
             Section {
@@ -297,8 +297,8 @@ pub fn section(allow_compressed: bool) -> impl Strategy<Value = Section> {
 pub fn engine_sel() -> impl Strategy<Value = EngineSel> {
     prop_oneof![
         3 => Just(EngineSel::SourceNone),
-        3 => (any::<u16>()).prop_map(|a| EngineSel::Source(a as u32, None)),
-        1 => (any::<u16>(), any::<u16>()).prop_map(|(a, d)| EngineSel::Source(a as u32, Some(d as u32))),
+        3 => (crate::util::num::<u16>()).prop_map(|a| EngineSel::Source(a as u32, None)),
+        1 => (crate::util::num::<u16>(), crate::util::num::<u16>()).prop_map(|(a, d)| EngineSel::Source(a as u32, Some(d as u32))),
         2 => Just(EngineSel::Ship),
         2 => Just(EngineSel::Css),
         1 => Just(EngineSel::Ror2),
